@@ -705,7 +705,8 @@ class HistorySet:
             return
         if self.fallbacks >= self.MAX_FALLBACKS:
             ctx.anomaly("order-mismatch-not-reduced")
-            ctx.inconclusive_because(f"more than {self.MAX_FALLBACKS} order mismatches could not be attributed from the data (victim API {vt}, {comp})")
+            ctx.inconclusive_because(f"more than {self.MAX_FALLBACKS} order mismatches could not be attributed from the data (victim API {vt}, {comp}); "
+                                     f"victim {H.test_lines(victim)[:14]} suspects {suspects} after {[H.test_lines(t)[:6] for t in self.hist[h][:pos]][-6:]} got {s.get('exc')} ref {ref.get('exc')}")
             return
         self.fallbacks += 1
         preds = self.hist[h][:pos]
@@ -757,6 +758,12 @@ class HistorySet:
                     out = (_first_diff(got, ref), {"culprit": H.test_lines(c), "victim": H.test_lines(v), "first_in_fresh_process": ref, "after_culprit": got})
         self.tag_cache[ck] = out
         return out
+
+
+def _n_calls(test):
+    from vlib import exech as H
+
+    return sum(1 for ln in H.test_lines(test) if _fn_of_line(ln))
 
 
 def _tags_of_test(test):
